@@ -17,7 +17,7 @@ from .kernel import HarnessError
 _DT = {
     "float32": torch.float32, "float64": torch.float64, "int64": torch.int64,
     "int32": torch.int32, "bool": torch.bool, "uint8": torch.uint8,
-    "complex64": torch.complex64,
+    "complex64": torch.complex64, "float16": torch.float16,
 }
 
 
